@@ -152,7 +152,9 @@ def main():
                                        'reference automata from the pinned XSD, JDK javax.xml.validation as lexical/document oracle'}],
         'checks': checks,
         'not_applicable': na,
-        'notes': 'See DESIGN.md. Known genuine defects are listed in known_findings.jsonl with exact witness keys in known_witnesses/.',
+        'notes': 'See DESIGN.md (sections 9-12: as built, repairs and known findings, seeded changes and detection). Known genuine defects are '
+                 'listed in known_findings.jsonl with exact witness keys in known_witnesses/ (fixed: lines record the 20 repairs made in /repo); '
+                 '110 verified property-breaking changes are kept under seeded/. No property is left unclaimed.',
     }
     with open(os.path.join(VERIF, 'MANIFEST.json'), 'w') as fh:
         json.dump(m, fh, indent=1)
